@@ -502,8 +502,8 @@ impl Check for C05 {
             real: &["h3 SharedState (OnceLock error cell, AtomicWaker), ConnectionState::set_conn_error_and_wake, ConnectionInner::{handle_connection_error, poll_connection_error, close_if_needed}", "client Connection::poll_close, SendRequest, RequestStream", "futures_util::task::AtomicWaker, std OnceLock, real OS threads (one running at a time)"],
             stub: &["thread scheduler (baton; choice-driven)", "QUIC transport (SimQuic, plain configuration)", "peer (script)"],
             assumptions: &["only one thread runs at a time, so shared-state operations are sequentially consistent - the granularity the property states; memory-model races are out of reach", "server-side drivers (accept) share the judged code paths (poll_control / poll_connection_error / handle_connection_error)"],
-            quick_runs: 40_000,
-            thorough_runs: 2_000_000,
+            quick_runs: 30_000,
+            thorough_runs: 1_200_000,
         }
     }
     fn run(&self, ctx: &RunCtx) -> RunOut {
